@@ -37,6 +37,13 @@ pub use local_authority::{
 };
 pub use runner::{SessionEngine, SessionHandle};
 
+/// Verification exports (compiled only with `--cfg rip_verif`).
+#[cfg(rip_verif)]
+pub mod verif_export {
+    pub use crate::provider_openresponses::OpenResponsesConfig;
+    pub use crate::server::VerifApp;
+}
+
 #[cfg(not(test))]
 pub async fn serve_default() {
     server::serve(server::data_dir()).await;
